@@ -6,7 +6,9 @@ THEOREM_FILE = "Properties/C07.v"
 RULE = ("texts through parser.New(text).Advance().ParseFile() in-process: grammar-based journals in random layouts (all "
         "directive kinds, @performance/@accrue, multi-line assertions, comments, CRLF, tabs, Unicode names), 1-4 byte/"
         "span/line mutations and truncations of those, raw random bytes, invalid UTF-8 placed in every token class, "
-        "tokens of 1-64 KiB, hand-written boundary snippets; thorough adds every string of length <= 4 over 12 relevant "
+        "tokens of 1-64 KiB, hand-written boundary snippets, and every leaf class (date, account, decimal, commodity, "
+        "interval, quoted string) and directive keyword in every syntactic position, well-formed and in near-miss "
+        "spellings (C07leaf, deterministic); thorough adds every string of length <= 4 over 12 relevant "
         "bytes, every 0-2 byte continuation of 7 directive prefixes, and unicode.IsLetter/IsDigit on every code point. "
         "Compared exactly: the tree of (kind start end) for every node, or the chain of (message kind, start, end) of "
         "every directives.Error.  Non-trivial: the text parses with >= 1 directive, or fails after >= 1 complete "
@@ -29,9 +31,11 @@ ASSUMPTIONS = ["the entry point is syntax.ParseFile's sequence New; Advance; Par
 def plan(tier, seed):
     if tier == "quick":
         return [("C07", seed, 3000, []),
-                ("C07short", seed, 0, ["2"])]
+                ("C07short", seed, 0, ["2"]),
+                ("C07leaf", seed, 0, [])]
     return [("C07", seed, 300000, []),
             ("C07short", seed, 0, ["4"]),
+            ("C07leaf", seed, 0, []),
             ("C07cls", seed, 0, [])]
 
 
@@ -94,13 +98,29 @@ def distribution(cases):
 TECHNIQUE = ("Coq proof over a hand-written Gallina model of scanner.go and parser.go (scanner invariant, every primitive "
              "monotone in the offset, ranges [scope start, offset) by construction, induction on loop fuel) + "
              "model/implementation correspondence on generated texts through extraction, with the executable "
-             "specification (wf_tree_b, cover_b, err_in_bounds_b) evaluated on the Go parser's own output")
-LEVEL_TEXT = ("Theorems C07_fuel, C07_err_in_bounds, C07_wf, C07_cover (Coq, closed under the global context) state for every "
-              "byte list and every letter/digit classification that the parser model terminates within its fuel, that "
-              "every error range lies inside the text, that a returned tree is well-formed (wf_tree_b) and that the text "
+             "specification (wf_tree_b, cover_b, wf_leaves_b, wf_keywords_b, err_in_bounds_b) evaluated on the Go parser's own output; the "
+             "lexical classes are proved by inversion of the parser (what each successful primitive consumed) and a "
+             "decoding lemma from the scanner's rune chunks to the executable regular expressions over runes; the keywords by "
+             "the windows of bytes readWhitespace1/ReadAlternative/ReadString consumed plus the first rune each parse "
+             "function accepts")
+LEVEL_TEXT = ("Theorems C07_fuel, C07_err_in_bounds, C07_wf, C07_cover, C07_leaves, C07_keywords (Coq, closed under the global context) state "
+              "for every byte list and every letter/digit classification that the parser model terminates within its fuel, "
+              "that every error range lies inside the text, that a returned tree is well-formed (wf_tree_b), that the text "
               "outside the directives is whitespace-only and comment lines (cover_b), so gaps and directives interleave to "
-              "the input. The model is tied to scanner.go/parser.go by running both on the same texts on every check.")
+              "the input, and that every leaf's slice is in its lexical class (wf_leaves_b: the slice decodes into runes "
+              "and is a date dddd-dd-dd, a decimal -?d+(.d+)?, a commodity, an account of ':'-separated segments or a "
+              "$macro agreeing with the Macro flag, an interval keyword, a quoted string delimited by two quotes with "
+              "none inside). C07_keywords adds, for classifications in which blanks, newline and the comment markers are not "
+              "alphanumeric (proved of the Unicode tables; refuted without that hypothesis), that the kind of every node "
+              "is justified by the text: blanks, the keyword open/close/price/balance and blanks between date and payload, "
+              "`include` and blanks before a path, `@performance(`...`)` and `@accrue` blanks for present addons "
+              "(wf_keywords_b). The model is tied to scanner.go/parser.go by running both on the same texts on every "
+              "check, where wf_tree_b, cover_b, wf_leaves_b and wf_keywords_b are also evaluated on the Go parser's own tree.")
 LEVEL_NOTE = ("Trusted: Coq kernel; extraction and the OCaml driver; the Go harness; that Model/Scanner.v and Model/Parser.v "
               "are scanner.go and parser.go (hand-written, validated by the correspondence: exact equality of all ranges and "
-              "error chains on every case). Go runtime panics are sampled, not excluded by proof. Leaf lexical classes "
-              "(date = 4-2-2 digits, account segments, decimals) are not part of wf_tree_b except the quotes of quoted strings.")
+              "error chains on every case). Go runtime panics are sampled, not excluded by proof. The lexical classes are "
+              "stated in terms of the parser's own letter/digit predicates (unicode.IsLetter/IsDigit, so a date may consist "
+              "of non-ASCII decimal digits: that such a date is rejected later is a matter of the model builder, not of "
+              "the parser); the blanks between the leaves inside a booking, a balance line, a price, an @accrue "
+              "line and the argument list of @performance are not part of the executable statements (only their order and "
+              "nesting, by wf_tree_b).")
